@@ -115,7 +115,13 @@ fn folding_provers(n: usize, depth: usize, coeffs: &[F], chals: &[F], exp: &[(us
         }
     }
     let pts = vec![fi(2), fi(3)];
-    let etas: Vec<F> = (0..depth).map(|k| fi(5).pow([k as u64])).collect();
+    // the batching coefficients are an arbitrary slice: consecutive powers from eta^0, from eta^1 (the layout in
+    // which a base polynomial takes eta^0), or unrelated values, in turn
+    let etas: Vec<F> = match (n + depth) % 3 {
+        0 => (0..depth).map(|k| fi(5).pow([k as u64])).collect(),
+        1 => (0..depth).map(|k| fi(5).pow([k as u64 + 1])).collect(),
+        _ => (0..depth).map(|k| fi(7 + 13 * k as i64) * fi(3 + k as i64)).collect(),
+    };
     let tree2 = FoldedPolynomialTree::new(&stream, chals);
     let (rems, proof) = match guarded_plain(|| space_ck.open_folding(tree2, &pts, &etas, buf)) {
         Out::Ok(x) => x,
